@@ -12,7 +12,7 @@ EXPLANATION = (
     'narrows or changes signedness and no float cast; R19.b no unchecked/wrapping/saturating integer arithmetic and '
     'every checked_* result reaches a panic or an Err; R19.c every construction of Instant is guarded by the '
     'nanos < 1e9 test or takes nanos from a source that guarantees the range; R19.d in every TryFrom impl each '
-    'fallible intermediate result reaches the Err return. Decides these shapes, not numerical exactness of std/chrono.')
+    'fallible intermediate result reaches the Err return. Decides these shapes, not numerical exactness of std/chrono. R19.b also rejects rounding / normalising third-party conversions (float routes, milli/microsecond accessors, chrono rounding, chrono\'s DateTime <-> SystemTime).')
 
 INT_BITS = {'u8': 8, 'u16': 16, 'u32': 32, 'u64': 64, 'u128': 128, 'i8': 8, 'i16': 16, 'i32': 32, 'i64': 64,
             'i128': 128}
